@@ -9,8 +9,10 @@ package main
 
 import (
 	"encoding/json"
+	"flag"
 	"fmt"
 	"os"
+	"os/exec"
 	"os/signal"
 	"path/filepath"
 	"sort"
@@ -18,6 +20,7 @@ import (
 	"strings"
 	"sync"
 	"syscall"
+	"time"
 
 	"verif/harness/lib"
 )
@@ -394,16 +397,19 @@ func (r *runner) tailVariants(n int, full bool) []tailVariant {
 		out = append(out, tailVariant{"junk", 3}, tailVariant{"junk", 30})
 		return out
 	}
-	offs := map[int]bool{1: true, 2: true, 6: true, 7: true, 10: true, 11: true, 12: true, 22: true, 23: true, n - 1: true, n - 2: true, n / 2: true}
-	offs[1+r.rng.Intn(n-1)] = true
-	for o := range offs {
-		if o >= 1 && o < n {
-			out = append(out, tailVariant{"cut", o})
+	pickOff := func(c []int) int {
+		o := lib.Pick(r.rng, c)
+		if o < 1 {
+			o = 1
 		}
+		if o > n-1 {
+			o = n - 1
+		}
+		return o
 	}
-	sort.Slice(out, func(i, j int) bool { return out[i].Off < out[j].Off })
-	out = append(out, tailVariant{"flip", r.rng.Intn(n)}, tailVariant{"flip", r.rng.Intn(11)}, tailVariant{"zero", r.rng.Intn(n)},
-		tailVariant{"junk", r.rng.Intn(64)})
+	out = append(out, tailVariant{"cut", pickOff([]int{1, 2, 6, 7, 10, 11, 12, 22, 23})}, tailVariant{"cut", pickOff([]int{n - 1, n - 2, n - 3})},
+		tailVariant{"cut", 1 + r.rng.Intn(n-1)}, tailVariant{"flip", r.rng.Intn(n)},
+		lib.Pick(r.rng, []tailVariant{{"zero", r.rng.Intn(n)}, {"junk", r.rng.Intn(64)}, {"flip", r.rng.Intn(11)}}))
 	return out
 }
 
@@ -488,6 +494,14 @@ func (r *runner) snapshot() {
 	r.res.Hit("image:snapshot")
 	r.checkDir(dst, "snapshot", "directory copied after the last operation", wantOK, want, [][]string{spec(r.acked)}, r.acked, nil, false)
 	_ = os.RemoveAll(dst)
+}
+
+func totalBatches(d diskDesc) int {
+	n := 0
+	for _, f := range d.Files {
+		n += f.Batches
+	}
+	return n
 }
 
 func descEq(a, b diskDesc) bool {
@@ -622,7 +636,7 @@ func (r *runner) exec(o Op) {
 		}
 		wasClosed := r.closed
 		bs := r.basesOf(o.K, o.F)
-		if len(bs) > 6 {
+		if (o.K == "flush" && len(bs) >= 7) || len(bs) >= 9 {
 			r.res.Hit("flush:cleanup-runs")
 			r.sawGC = true
 			r.hot = 6
@@ -630,13 +644,15 @@ func (r *runner) exec(o Op) {
 		}
 		preAcked := spec(r.acked)
 		preBoth := spec(append(append([]call(nil), r.acked...), r.calls...))
+		preDisk, _ := r.real.observe(r.real.db, false)
 		err := r.withFault(o, func() error {
 			if o.K == "flush" {
 				return guard(r.real.st.Flush)
 			}
 			return guard(r.real.st.Close)
 		})
-		if _, oerr := r.real.observe(r.real.db, true); oerr != nil {
+		postDisk, oerr := r.real.observe(r.real.db, true)
+		if oerr != nil {
 			r.res.Note("observe: %v", oerr)
 		}
 		// which of the two histories does the live store show now?
@@ -645,6 +661,12 @@ func (r *runner) exec(o Op) {
 		if err != nil && !wasClosed {
 			r.res.Hit(o.K + ":returned-error")
 			switch {
+			case lerr == nil && eq(live, preAcked) && eq(live, preBoth):
+				// the batch changes nothing visible: a batch more in the logs means it is committed
+				committed = totalBatches(postDisk) > totalBatches(preDisk)
+				if committed {
+					r.res.Hit(o.K + ":error-after-commit")
+				}
 			case lerr == nil && eq(live, preAcked):
 				committed = false
 			case lerr == nil && eq(live, preBoth):
@@ -709,6 +731,9 @@ func (r *runner) exec(o Op) {
 		r.crash(o)
 		return
 	}
+	if o.K == "set" || o.K == "del" {
+		return // nothing observable changes before the next flush
+	}
 	r.compareState(o.String())
 	if every || r.rng.Intn(10) == 0 {
 		r.snapshot()
@@ -765,6 +790,14 @@ func (r *runner) crash(o Op) {
 	}
 	dir, err := r.real.materialise(img, tv, r.rng)
 	if err != nil {
+		if os.Getenv("VERIF_C14_DEBUG") != "" {
+			fmt.Fprintf(os.Stderr, "materialise %q: %v\nbookkeeping:", ans, err)
+			for n, fr := range r.real.files {
+				fmt.Fprintf(os.Stderr, " %d:%d", n, len(fr.ends)-1)
+			}
+			rd, _ := r.real.observe(r.real.db, false)
+			fmt.Fprintf(os.Stderr, "\nreal dir: %s\nmodel: %s\nlast ops: %v\n", rd, r.ask("disk"), r.log[max(0, len(r.log)-8):])
+		}
 		// unknown bytes (batch of a failed flush): crash at the first durable state instead
 		idx, b = 0, bs[0]
 		ms = maskStr(mask, len(b.Disk.Zombies))
@@ -773,7 +806,7 @@ func (r *runner) crash(o Op) {
 		img, _ = parseDisk(parts[0])
 		dir, err = r.real.materialise(img, tv, r.rng)
 		if err != nil {
-			r.res.Note("cannot materialise crash image %q: %v", ans, err)
+			r.res.Note("%s step %d: cannot materialise crash image %q: %v", r.name, len(r.log), ans, err)
 			r.failed = true
 			return
 		}
@@ -792,6 +825,7 @@ func (r *runner) crash(o Op) {
 	old := r.real.db
 	r.real.db = dir
 	_ = os.RemoveAll(old)
+	_ = os.RemoveAll(old + "-links")
 	if b.Infl {
 		r.acked = append(r.acked, r.calls...)
 	}
@@ -854,7 +888,11 @@ func runJob(j job, f lib.Flags, res *lib.Result) {
 		return
 	}
 	defer r.done()
+	tj := time.Now()
 	r.run(j.ops)
+	if d := time.Since(tj).Seconds(); d > 5 {
+		res.Note("%s: %d ops, %d images, %.1fs", j.name, len(j.ops), r.nImages, d)
+	}
 	res.Hit("history:" + strings.SplitN(j.name, "-", 2)[0])
 	if r.sawGC {
 		res.Hit("history:with-cleanup")
@@ -889,12 +927,20 @@ func main() {
 		lib.Finish(f, res)
 	}
 
+	if *shardFlag < 0 {
+		parent(f, res)
+		_ = os.RemoveAll(runRoot)
+		lib.Finish(f, res)
+	}
+
+	// a shard: every history of this shard runs alone in this process, one after the other, so
+	// that the process-wide RLIMIT_FSIZE failure injection cannot disturb another history
 	rng := lib.NewRNG(f.Seed)
-	var par, ser []job
-	add := func(dst *[]job, kind string, n int, level int, serial bool, gen func(*lib.RNG) []Op) {
+	var jobs []job
+	add := func(kind string, n int, level int, gen func(*lib.RNG) []Op) {
 		for i := 0; i < n; i++ {
-			g := rng.Fork(uint64(len(par) + len(ser)))
-			*dst = append(*dst, job{name: fmt.Sprintf("%s-%d", kind, i), ops: gen(g), level: level, serial: serial, seed: g.Uint64()})
+			g := rng.Fork(uint64(len(jobs)))
+			jobs = append(jobs, job{name: fmt.Sprintf("%s-%d", kind, i), ops: gen(g), level: level, serial: true, seed: g.Uint64()})
 		}
 	}
 	lvl := 1
@@ -902,36 +948,94 @@ func main() {
 		lvl = 2
 	}
 	for _, fx := range fixedHistories() {
-		par = append(par, job{name: fx.name, ops: fx.ops, level: lvl, seed: 7})
+		jobs = append(jobs, job{name: fx.name, ops: fx.ops, level: lvl, serial: true, seed: 7})
 	}
-	add(&par, "short", f.Scale(400, 6000), lvl, false, func(g *lib.RNG) []Op { return genShort(g, false) })
-	add(&par, "gc", f.Scale(48, 400), f.Scale(0, 1), false, func(g *lib.RNG) []Op { return genGC(g, false) })
-	add(&ser, "fault", f.Scale(150, 2500), lvl, true, func(g *lib.RNG) []Op { return genShort(g, true) })
-	add(&ser, "gcfault", f.Scale(6, 60), 0, true, func(g *lib.RNG) []Op { return genGC(g, true) })
-
-	workers := 12
-	var wg sync.WaitGroup
-	ch := make(chan job)
-	for w := 0; w < workers; w++ {
-		wg.Add(1)
-		go func() {
-			defer wg.Done()
-			for j := range ch {
-				runJob(j, f, res)
-			}
-		}()
-	}
-	for _, j := range par {
-		ch <- j
-	}
-	close(ch)
-	wg.Wait()
-	// failure injection through RLIMIT_FSIZE is process-wide: these histories run alone
-	for _, j := range ser {
+	add("short", f.Scale(500, 8000), lvl, func(g *lib.RNG) []Op { return genShort(g, false) })
+	add("fault", f.Scale(300, 5000), lvl, func(g *lib.RNG) []Op { return genShort(g, true) })
+	add("gc", f.Scale(60, 600), f.Scale(0, 1), func(g *lib.RNG) []Op { return genGC(g, false) })
+	add("gcfault", f.Scale(24, 240), f.Scale(0, 1), func(g *lib.RNG) []Op { return genGC(g, true) })
+	// longest first within a shard would not help: interleave by index
+	t0 := time.Now()
+	n := 0
+	for i, j := range jobs {
+		if i%*shardsFlag != *shardFlag {
+			continue
+		}
+		if only := os.Getenv("VERIF_C14_ONLY"); only != "" && only != j.name {
+			continue
+		}
 		runJob(j, f, res)
+		n++
 	}
+	res.Note("shard %d/%d: %d histories in %.1fs", *shardFlag, *shardsFlag, n, time.Since(t0).Seconds())
 	_ = os.RemoveAll(runRoot)
 	lib.Finish(f, res)
+}
+
+var (
+	shardFlag  = flag.Int("shard", -1, "internal: index of this worker process")
+	shardsFlag = flag.Int("shards", 14, "number of worker processes")
+)
+
+// parent starts one worker process per shard and merges their results.
+func parent(f lib.Flags, res *lib.Result) {
+	exe, err := os.Executable()
+	if err != nil {
+		res.Note("cannot find own executable: %v", err)
+		return
+	}
+	type child struct {
+		cmd *exec.Cmd
+		out string
+	}
+	var cs []child
+	for i := 0; i < *shardsFlag; i++ {
+		out := filepath.Join(scratchRoot, fmt.Sprintf("shard-%d-%d.json", os.Getpid(), i))
+		cmd := exec.Command(exe, "--seed", fmt.Sprint(f.Seed), "--tier", f.Tier, "--driver", f.Driver, "--out", out,
+			"--shard", fmt.Sprint(i), "--shards", fmt.Sprint(*shardsFlag))
+		cmd.Stderr = os.Stderr
+		if err := cmd.Start(); err != nil {
+			res.Note("cannot start shard %d: %v", i, err)
+			continue
+		}
+		cs = append(cs, child{cmd, out})
+	}
+	for i, c := range cs {
+		if err := c.cmd.Wait(); err != nil {
+			res.Note("shard %d: %v", i, err)
+			res.Mismatch(lib.Mismatch{Sig: "harness-worker-died", Input: i, Impl: err.Error()})
+		}
+		b, err := os.ReadFile(c.out)
+		_ = os.Remove(c.out)
+		if err != nil {
+			res.Note("shard %d: no result: %v", i, err)
+			res.Mismatch(lib.Mismatch{Sig: "harness-worker-no-result", Input: i})
+			continue
+		}
+		var r lib.Result
+		if err := json.Unmarshal(b, &r); err != nil {
+			res.Note("shard %d: %v", i, err)
+			continue
+		}
+		res.Cases += r.Cases
+		res.DistinctNontrivial += r.DistinctNontrivial
+		for k, v := range r.Distribution {
+			res.HitN(k, v)
+		}
+		res.Compared(r.Correspondence.Compared)
+		for _, m := range r.Correspondence.Mismatches {
+			res.Mismatch(m)
+		}
+		for _, v := range r.Violations {
+			res.Violate(v)
+		}
+		for _, n := range r.Notes {
+			res.Note("%s", n)
+		}
+		for _, s := range r.Samples {
+			res.Sample(8, s)
+		}
+	}
 }
 
 // replayFile re-runs the history of a replay written by an earlier run, checking every image.
